@@ -228,6 +228,19 @@ def _trigger_closure(col: Collector, rule="C01.R2"):
                 col.add(rule, "Manager.find_taskids_from_tasks#orders-by-rtasks", okd, s2.loc(r2),
                         "returns toposort(self.rtasks, <start tasks>)", S.show(r2.value))
             m = {"g": S.sattr("rtasks"), "start": m2["start"]}
+        # nothing is taken out of the start collection once it was gathered (every start task must be offered to the sort: on a cycle
+        # "it is reached from another one anyway" is false for both)
+        sarg = None
+        for ev_ in s.of_kind("call"):
+            if isinstance(ev_.node.func, ast.Name) and ev_.node.func.id == "toposort" and len(ev_.node.args) >= 2:
+                sarg = ev_.node.args[1]
+        if isinstance(sarg, ast.Name):
+            removers = ("discard", "remove", "difference_update", "intersection_update", "symmetric_difference_update", "pop", "clear")
+            taken = [ev for ev in s.of_kind("call") if isinstance(ev.node.func, ast.Attribute) and ev.node.func.attr in removers
+                     and isinstance(ev.node.func.value, ast.Name) and ev.node.func.value.id == sarg.id]
+            if taken:
+                col.add(rule, f"{q}#start-set-not-pruned", False, s.loc(taken[0]),
+                        "no start task is removed from the start collection before the sort", S.show(taken[0].term)[:80])
         col.add(rule, f"{q}#orders-by-rtasks", m["g"] == S.sattr("rtasks"), s.loc(r),
                 "the triggered tasks are ordered by the task-ordering graph self.rtasks, restricted to what is reachable from "
                 "the start tasks", f"graph argument: {S.show(m['g'])}")
